@@ -243,7 +243,7 @@ class OrderedContext(contexts.Context):
 
     def get_functions(self, name, predicate=None, use_convention=False):
         fs, excl = super().get_functions(name, predicate, use_convention)
-        return [f for f in self.order if f in fs], excl
+        return [f for f in self.order if f in fs] + [f for f in fs if f not in self.order], excl
 
 
 _engine = None
@@ -260,9 +260,23 @@ class BadFamily(Exception):
     pass
 
 
+_probe = {"log": None, "table": {}}
+
+
+@specs.name("p")
+@specs.parameter("i", yaqltypes.PythonType(int, False))
+def _probe_function(i):
+    _probe["log"].append(i)
+    return _probe["table"][i]
+
+
 def build_chain(family):
     """-> (innermost context, {fid: FunctionDefinition})"""
+    from yaql.standard_library import system
     ctx, fds = None, {}
+    ctx = OrderedContext(None)                 # outermost: what the text route needs (probe calls, the dot operator)
+    ctx.register_function(_probe_function)
+    ctx.register_function(system.op_dot)
     for layer in reversed(family["chain"]):
         ctx = OrderedContext(ctx)
         for fun in layer["funs"]:
@@ -343,6 +357,80 @@ def run_call(family, call, ctx=None):
     except Exception as e:
         name = ERR.get((type(e), has_recv))
         obs = ["err", name] if name else ["foreign", type(e).__name__]
+    return obs, list(log)
+
+
+def call_text(call):
+    """the call as YAQL text, or None when the grammar cannot spell it (plain python values, class
+    instances as constants, python-level keywords, a named argument before a positional one)"""
+    def simple(kind, *rest):
+        if kind == "expr":
+            return "p(%d)" % rest[0]
+        v = rest[-1]
+        if v == "null":
+            return "null"
+        if v != "marker" and v[0] == "int" and v[1] >= 0:
+            return str(v[1])
+        return None
+    if call["kwargs"]:
+        return None
+    pos, named = [], []
+    for a in call["args"]:
+        if a[0] == "mapc":
+            t = simple("const", a[2])
+            named.append((a[1], t))
+        elif a[0] == "mape":
+            named.append((a[1], simple("expr", a[2])))
+        elif named:
+            return None
+        elif a[0] == "skip":
+            pos.append("")
+        elif a[0] == "expr":
+            pos.append(simple("expr", a[1]))
+        elif a[0] == "const":
+            pos.append(simple("const", a[1]))
+        else:
+            return None
+    if any(t is None for t in pos) or any(t is None for _, t in named):
+        return None
+    text = "f(%s)" % ", ".join(pos + ["%s => %s" % nt for nt in named])
+    if call["recv"] is not None:
+        text = "p(0)." + text
+    return text
+
+
+def run_call_text(family, call, ctx, text):
+    """the same call through the real lexer/parser; None when the text does not parse"""
+    try:
+        stmt = engine()(text)
+    except exceptions.YaqlParsingException:
+        return None
+    node = stmt.expression
+    has_recv = call["recv"] is not None
+    fnode = node.args[1] if has_recv else node
+    if len(fnode.args) != len(call["args"]):
+        return None
+    log, table, values = [], {}, {}
+    for a, e in zip(call["args"], fnode.args):
+        table[id(e)] = a
+        if a[0] == "expr":
+            values[a[1]] = py_value(a[2])
+        elif a[0] == "mape":
+            values[a[2]] = py_value(a[3])
+            table[id(e.destination)] = ["expr", a[2], a[3]]
+        elif a[0] == "mapc":
+            table[id(e.destination)] = ["const", a[2]]
+    if has_recv:
+        values[0] = py_value(call["recv"])
+    _probe["log"], _probe["table"] = log, values
+    try:
+        res = node(utils.NO_VALUE, ctx, engine())
+        obs = canon_result(res, table)
+    except Exception as e:
+        name = ERR.get((type(e), has_recv))
+        obs = ["err", name] if name else ["foreign", type(e).__name__]
+    if has_recv and log[:1] == [0]:
+        log = log[1:]
     return obs, list(log)
 
 
@@ -977,6 +1065,16 @@ def correspond(run, pairs, what_violation, what_prop, judge=None):
             run.fail("violation", "resolution raised an exception outside the documented error set, or a payload received a foreign object",
                      {"family": family, "call": call, "observed": obs, "log": log})
             continue
+        text = call_text(call)
+        if text is not None:
+            r2 = run_call_text(family, call, ctx, text)
+            if r2 is not None:
+                run.count("route:yaql-text")
+                if [r2[0], r2[1]] != [obs, log]:
+                    run.fail("violation", "the call written as YAQL text resolves differently from the same call made through the API",
+                             {"family": family, "call": call, "text": text, "observed": obs, "log": log,
+                              "observed_text_route": r2[0], "log_text_route": r2[1]})
+                    continue
         cases.append(case_term(family, fds, call, obs, log))
         meta.append((family, call, obs, log))
     bad = run.coq_mismatches(HEADER, "case", "case_ok", cases, shard=250)
